@@ -17,6 +17,8 @@ import (
 	"gonum.org/v1/gonum/blas/cblas128"
 	"gonum.org/v1/gonum/blas/cblas64"
 	"gonum.org/v1/gonum/internal/verif/vlib"
+	"gonum.org/v1/gonum/lapack"
+	"gonum.org/v1/gonum/lapack/lapack64"
 )
 
 var (
@@ -65,7 +67,6 @@ var wrappers = [4]map[string]any{
 		"Trsm": cblas128.Trsm, "Hemm": cblas128.Hemm, "Herk": cblas128.Herk, "Her2k": cblas128.Her2k,
 	},
 }
-
 
 var wrapPkg = map[Prec]string{S: "blas32", D: "blas64", C: "cblas64", Z: "cblas128"}
 
@@ -267,11 +268,11 @@ func runWrapBase(t failer, c *Call, regs []*region, st *wrapStats) {
 		base := w.in[w.opAt[k]]
 		lname := strings.ToLower(od.Name)
 		if !negOne && nonEmpty(c) && nd[k] > 0 {
-			fs = append(fs, wf{k, withField(base, "Data", regs[k].slice(nd[k] - 1)), nd[k] - 1, shortMsg(od), fmt.Sprintf("len(%s.Data)=%d", lname, nd[k]-1)})
+			fs = append(fs, wf{k, withField(base, "Data", regs[k].slice(nd[k]-1)), nd[k] - 1, shortMsg(od), fmt.Sprintf("len(%s.Data)=%d", lname, nd[k]-1)})
 		}
 		if od.Kind.HasLD() {
 			min := MinLd(c, k)
-			fs = append(fs, wf{k, withField(base, "Stride", reflect.ValueOf(min - 1)), nd[k], "blas: bad leading dimension of " + od.Name, fmt.Sprintf("%s.Stride=%d", lname, min-1)})
+			fs = append(fs, wf{k, withField(base, "Stride", reflect.ValueOf(min-1)), nd[k], "blas: bad leading dimension of " + od.Name, fmt.Sprintf("%s.Stride=%d", lname, min-1)})
 		}
 		if od.Kind == Vector {
 			fs = append(fs, wf{k, withField(base, "Inc", reflect.ValueOf(0)), nd[k], "blas: zero " + lname + " index increment", lname + ".Inc=0"})
@@ -313,8 +314,8 @@ func genBlasWrapStruct(g *vlib.G) {
 	if vlib.Env("VERIF_CONFIG", "default") == "bounds" {
 		return
 	}
-	dims := vlib.Pick(g, []int{0, 1, 3}, []int{0, 1, 2, 3, 5})
-	band := []int{0, 2}
+	dims := vlib.Pick(g, []int{0, 1, 2, 3, 5}, []int{0, 1, 2, 3, 5, 9})
+	band := []int{0, 1, 2}
 	for _, r := range Routines {
 		if r.Wrapper == "" || len(r.Ops) == 0 {
 			continue
@@ -418,6 +419,297 @@ func genBlasWrapStruct(g *vlib.G) {
 				t.Count("wrapper_struct_valid_calls", st.valid)
 				t.Count("wrapper_struct_fault_calls", st.faults)
 				t.Outcome("blas wrapper L" + fmt.Sprint(r.Level))
+				t.Nontrivial()
+			})
+		}
+	}
+}
+
+// ---- lapack64 -----------------------------------------------------------------
+
+type l64func struct {
+	name string
+	f    any
+	// flags overrides the default value of the flag parameters by parameter index.
+	flags map[int]byte
+	// derived lists slice parameters whose length the wrapper turns into a
+	// dimension (k = len(tau)): a shorter slice is a different valid call.
+	derived map[int]bool
+}
+
+var lapack64Funcs = []l64func{
+	{"Potrf", lapack64.Potrf, nil, nil}, {"Potri", lapack64.Potri, nil, nil}, {"Potrs", lapack64.Potrs, nil, nil}, {"Pbcon", lapack64.Pbcon, nil, nil},
+	{"Pbtrf", lapack64.Pbtrf, nil, nil}, {"Pbtrs", lapack64.Pbtrs, nil, nil}, {"Pstrf", lapack64.Pstrf, nil, nil}, {"Gecon", lapack64.Gecon, nil, nil},
+	{"Gels", lapack64.Gels, nil, nil}, {"Geqp3", lapack64.Geqp3, nil, nil}, {"Geqrf", lapack64.Geqrf, nil, nil}, {"Gelqf", lapack64.Gelqf, nil, nil},
+	{"Gesvd", lapack64.Gesvd, nil, nil}, {"Getrf", lapack64.Getrf, nil, nil}, {"Getri", lapack64.Getri, nil, nil}, {"Getrs", lapack64.Getrs, nil, nil},
+	{"Ggsvd3", lapack64.Ggsvd3, map[int]byte{0: 'U', 1: 'V', 2: 'Q'}, nil}, {"Gtsv", lapack64.Gtsv, nil, nil}, {"Lagtm", lapack64.Lagtm, nil, nil},
+	{"Lange", lapack64.Lange, nil, nil}, {"Langb", lapack64.Langb, nil, nil}, {"Langt", lapack64.Langt, nil, nil}, {"Lansb", lapack64.Lansb, nil, nil},
+	{"Lansy", lapack64.Lansy, nil, nil}, {"Lantr", lapack64.Lantr, nil, nil}, {"Lantb", lapack64.Lantb, nil, nil}, {"Lapmr", lapack64.Lapmr, nil, nil},
+	{"Lapmt", lapack64.Lapmt, nil, nil}, {"Orglq", lapack64.Orglq, nil, map[int]bool{1: true}}, {"Ormlq", lapack64.Ormlq, nil, nil}, {"Orgqr", lapack64.Orgqr, nil, map[int]bool{1: true}},
+	{"Ormqr", lapack64.Ormqr, nil, map[int]bool{3: true}}, {"Pocon", lapack64.Pocon, nil, nil}, {"Syev", lapack64.Syev, nil, nil}, {"Tbtrs", lapack64.Tbtrs, nil, nil},
+	{"Trcon", lapack64.Trcon, nil, nil}, {"Trtri", lapack64.Trtri, nil, nil}, {"Trtrs", lapack64.Trtrs, nil, nil}, {"Geev", lapack64.Geev, nil, nil},
+}
+
+// default legal value of a flag parameter by type name: one that makes the
+// routine reference every operand.
+var l64flagDefault = map[string]byte{
+	"Transpose": 'N', "Side": 'L', "MatrixNorm": byte(lapack.MaxColumnSum), "SVDJob": byte(lapack.SVDAll), "EVJob": byte(lapack.EVCompute),
+	"LeftEVJob": byte(lapack.LeftEVCompute), "RightEVJob": byte(lapack.RightEVCompute),
+}
+
+// l64slot is one slice handed to the call: a field of a struct parameter or a slice parameter.
+type l64slot struct {
+	param int
+	field string // "" for a plain slice parameter
+	reg   *region
+	n     int
+	work  bool // exempt from the unchanged comparison
+	short bool // n is the exact minimum: one element less violates the contract
+}
+
+const l64work = 6000
+
+// l64build instantiates a call with all matrices n×n (band widths 1) and every slice of its minimal length.
+func l64build(fn l64func, n int) (fv reflect.Value, in []reflect.Value, slots []l64slot, strides [][3]int) {
+	fv = reflect.ValueOf(fn.f)
+	ft := fv.Type()
+	in = make([]reflect.Value, ft.NumIn())
+	hasLwork := false
+	for i := 0; i < ft.NumIn(); i++ {
+		if ft.In(i).Kind() == reflect.Int {
+			hasLwork = true
+		}
+	}
+	workIdx := -1
+	if hasLwork {
+		for i := 0; i+1 < ft.NumIn(); i++ {
+			if ft.In(i).Kind() == reflect.Slice && ft.In(i).Elem().Kind() == reflect.Float64 && ft.In(i+1).Kind() == reflect.Int {
+				workIdx = i
+			}
+		}
+	}
+	mkF := func(param int, field string, ln int, fill func(s []float64), work, short bool) reflect.Value {
+		reg := newHeapRegionN(D, ln+1)
+		reg.fill(param)
+		sl := reg.slice(ln)
+		s := sl.Interface().([]float64)
+		for i := range s {
+			s[i] = 0.5
+		}
+		if fill != nil {
+			fill(s)
+		}
+		reg.snapshot()
+		slots = append(slots, l64slot{param, field, reg, ln, work, short})
+		return sl
+	}
+	dense := func(ld int) func(s []float64) {
+		return func(s []float64) {
+			for i := 0; i < n; i++ {
+				for j := 0; j < n; j++ {
+					x := 0.25 * float64((i+j)%3-1)
+					if i == j {
+						x = 4 + 0.5*float64(i)
+					}
+					if p := i*ld + j; p < len(s) {
+						s[p] = x
+					}
+				}
+			}
+		}
+	}
+	for i := 0; i < ft.NumIn(); i++ {
+		pt := ft.In(i)
+		switch pt.Kind() {
+		case reflect.Uint8:
+			b, ok := fn.flags[i]
+			if !ok {
+				b, ok = l64flagDefault[pt.Name()]
+			}
+			if !ok {
+				panic("harness: lapack64." + fn.name + ": no value for flag type " + pt.Name())
+			}
+			in[i] = flagValue(pt, b)
+		case reflect.Bool:
+			in[i] = reflect.ValueOf(true)
+		case reflect.Float64:
+			in[i] = reflect.ValueOf(1.0)
+		case reflect.Int:
+			in[i] = reflect.ValueOf(l64work)
+		case reflect.Slice:
+			if pt.Elem().Kind() == reflect.Int {
+				reg := newHeapRegionN(I, n+1)
+				reg.fill(i)
+				sl := reg.slice(n)
+				s := sl.Interface().([]int)
+				for j := range s {
+					s[j] = j
+				}
+				reg.snapshot()
+				slots = append(slots, l64slot{i, "", reg, n, false, true})
+				in[i] = sl
+			} else if i == workIdx {
+				in[i] = mkF(i, "", l64work, nil, true, true)
+			} else if hasLwork {
+				in[i] = mkF(i, "", n, nil, false, true)
+			} else {
+				in[i] = mkF(i, "", 4*n, nil, true, false) // workspace of a routine without lwork: 4n covers every documented minimum
+			}
+		case reflect.Struct:
+			x := reflect.New(pt).Elem()
+			stride := 0
+			for j := 0; j < pt.NumField(); j++ {
+				f := x.Field(j)
+				switch fname := pt.Field(j).Name; fname {
+				case "N", "Rows", "Cols":
+					f.SetInt(int64(n))
+				case "K", "KL", "KU":
+					f.SetInt(1)
+				case "Uplo":
+					f.Set(reflect.ValueOf(blas.Upper))
+				case "Diag":
+					f.Set(reflect.ValueOf(blas.NonUnit))
+				}
+			}
+			switch pt.Name() {
+			case "General", "Symmetric", "Triangular":
+				stride = n
+				x.FieldByName("Stride").SetInt(int64(n))
+				x.FieldByName("Data").Set(mkF(i, "Data", n*n, dense(n), false, true))
+				strides = append(strides, [3]int{i, n - 1, 0})
+			case "Band":
+				stride = 3
+				x.FieldByName("Stride").SetInt(3)
+				x.FieldByName("Data").Set(mkF(i, "Data", 3*n, func(s []float64) {
+					for r := 0; r < n; r++ {
+						s[3*r+1] = 4
+					}
+				}, false, true))
+				strides = append(strides, [3]int{i, 2, 0})
+			case "SymmetricBand", "TriangularBand":
+				stride = 2
+				x.FieldByName("Stride").SetInt(2)
+				x.FieldByName("Data").Set(mkF(i, "Data", 2*(n-1)+2, func(s []float64) {
+					for r := 0; r < n; r++ {
+						s[2*r] = 4 // upper band storage: the diagonal is the first column
+					}
+				}, false, true))
+				strides = append(strides, [3]int{i, 1, 0})
+			case "Tridiagonal":
+				x.FieldByName("DL").Set(mkF(i, "DL", n-1, nil, false, true))
+				x.FieldByName("D").Set(mkF(i, "D", n, func(s []float64) {
+					for r := range s {
+						s[r] = 4
+					}
+				}, false, true))
+				x.FieldByName("DU").Set(mkF(i, "DU", n-1, nil, false, true))
+			default:
+				panic("harness: lapack64." + fn.name + ": struct type " + pt.Name())
+			}
+			_ = stride
+			in[i] = x
+		default:
+			panic("harness: lapack64." + fn.name + ": parameter type " + pt.String())
+		}
+	}
+	return fv, in, slots, strides
+}
+
+func genLapack64(g *vlib.G) {
+	if vlib.Env("VERIF_CONFIG", "default") == "bounds" {
+		return
+	}
+	isMsg := func(s string) bool {
+		return isLapackMsg(s) || strings.HasPrefix(s, "lapack64: ") || strings.HasPrefix(s, "blas64: ") || s == "dgesvd: not coded for overwrite"
+	}
+	for _, fn := range lapack64Funcs {
+		for _, n := range vlib.Pick(g, []int{2, 3}, []int{2, 3, 4, 6}) {
+			fn, n := fn, n
+			g.Case(fmt.Sprintf("lapack64.%s n=%d", fn.name, n), func(t *vlib.T) {
+				name := "lapack64." + fn.name
+				fv, in, slots, strides := l64build(fn, n)
+				restore := func() {
+					for _, s := range slots {
+						s.reg.restore()
+					}
+				}
+				var nvalid, nfault int64
+				_, e := invoke(fv, in)
+				nvalid++
+				if o := classify(e, isMsg); o.class != pcNone {
+					t.FailClass("valid-call-panics", "%s: consistent n×n arguments with minimal slices but the call %s", describeWrap(name, in), o)
+				}
+				restore()
+				check := func(label string, known string, cur map[int]int) {
+					_, e := invoke(fv, in)
+					nfault++
+					o := classify(e, isMsg)
+					what := fmt.Sprintf("%s [single fault %s]", describeWrap(name, in), label)
+					cls := func(generic string) string {
+						if known != "" {
+							return known
+						}
+						return generic
+					}
+					switch o.class {
+					case pcNone:
+						debugLog(cls("invalid-accepted"), "%s: returned normally", what)
+						t.FailClass(cls("invalid-accepted"), "%s: returned normally, want a lapack panic", what)
+					case pcFault:
+						t.FailClass("memory-fault", "%s: %s", what, o)
+					case pcRuntime:
+						debugLog(cls("runtime-error-for-invalid"), "%s: %s", what, o)
+						t.FailClass(cls("runtime-error-for-invalid"), "%s: %s, want a lapack panic", what, o)
+					case pcOther:
+						debugLog(cls("foreign-panic"), "%s: %s", what, o)
+						t.FailClass(cls("foreign-panic"), "%s: %s, want a lapack panic", what, o)
+					}
+					for si, s := range slots {
+						if s.work {
+							continue
+						}
+						ln := s.n
+						if v, ok := cur[si]; ok {
+							ln = v
+						}
+						if d := s.reg.changed(ln); d != "" {
+							debugLog(cls("write-before-validate"), "%s: slice %d modified: %s", what, si, d)
+							t.FailClass(cls("write-before-validate"), "%s: the slice of parameter %d %s was modified although the call panicked: %s", what, s.param, s.field, d)
+						}
+					}
+					restore()
+				}
+				// every slice one element short
+				for si, s := range slots {
+					if !s.short || s.n == 0 || (s.field == "" && fn.derived[s.param]) {
+						continue
+					}
+					shortSl := s.reg.slice(s.n - 1)
+					old := in[s.param]
+					label := fmt.Sprintf("parameter %d one element short (len %d)", s.param, s.n-1)
+					if s.field == "" {
+						in[s.param] = shortSl
+					} else {
+						in[s.param] = withField(old, s.field, shortSl)
+						label = fmt.Sprintf("parameter %d: len(%s)=%d", s.param, s.field, s.n-1)
+					}
+					check(label, "", map[int]int{si: s.n - 1})
+					in[s.param] = old
+				}
+				// every stride one below the row length
+				for _, sd := range strides {
+					old := in[sd[0]]
+					in[sd[0]] = withField(old, "Stride", reflect.ValueOf(sd[1]))
+					known := ""
+					if fn.name == "Ormlq" && sd[0] == 4 {
+						known = "dormlq-dorml2-missing-ldc-check"
+					}
+					check(fmt.Sprintf("parameter %d: Stride=%d", sd[0], sd[1]), known, nil)
+					in[sd[0]] = old
+				}
+				t.Count("wrapper_struct_valid_calls", nvalid)
+				t.Count("wrapper_struct_fault_calls", nfault)
+				t.Outcome("lapack64")
 				t.Nontrivial()
 			})
 		}
